@@ -167,6 +167,8 @@ def eval_split_drop(case):
         df = run_cf(sig, o)
     except Exception:      # noqa
         return SKIP('pipeline precondition')
+    df['downsample_factor'] = 2            # user-added columns: 'sample_' inside the name is not a sample column
+    df['n_resample_pts'] = np.arange(len(df))
     orig = df.copy()
     scols = [c for c in orig.columns if c.startswith('sample_')]
     fcols = [c for c in orig.columns if not c.startswith('sample_')]
